@@ -250,6 +250,28 @@ pub enum Focus {
     Flush,
 }
 
+/// How the last sender operation before a quiescence step is aimed.
+#[derive(Clone, Copy, Debug, PartialEq, Eq)]
+pub enum TailAim {
+    None,
+    /// rendezvous before the call: the receiver is held at this window while the whole
+    /// operation runs ("receiver delayed between saw-empty and went-idle")
+    PreCall(u8),
+    /// delay inside the hook at the sender's lock point (`SendLock` / `TrySendLock`), i.e.
+    /// after anything the operation does before taking the lock: concurrent mode waits until
+    /// the receiver has passed this window; sequential mode polls the receiver this many times
+    AtLock(u8),
+}
+
+/// One quiescence round: a last sender operation (optionally followed at once by a callback
+/// flush), then nothing but the receiver idling.
+#[derive(Clone, Copy, Debug)]
+pub struct TailOp {
+    pub op: SOp,
+    pub aim: TailAim,
+    pub flush: bool,
+}
+
 #[derive(Clone, Debug)]
 pub struct Plan {
     pub seed: u64,
@@ -265,6 +287,9 @@ pub struct Plan {
     /// Exec flavour only: drop the receiver (the exec future) after this many polls
     pub drop_after_polls: Option<u32>,
     pub hook: HookProfile,
+    /// quiescence rounds run after all scripted actors finished and before the sender is
+    /// dropped (empty = no quiescence step)
+    pub tail: Vec<TailOp>,
 }
 
 #[derive(Clone, Debug)]
@@ -278,6 +303,8 @@ pub struct GenCfg {
     pub max_senders: usize,
     pub early_drop_pm: u32,
     pub delays: bool,
+    /// share of the histories (per mille) that end with quiescence rounds
+    pub quiesce_pm: u32,
 }
 
 impl GenCfg {
@@ -312,6 +339,7 @@ impl GenCfg {
             max_senders: args.get_u64("max-senders", if miri { 3 } else { 6 }) as usize,
             early_drop_pm: args.get_u64("early-drop-pm", 60) as u32,
             delays: !miri,
+            quiesce_pm: args.get_u64("quiesce-pm", 600) as u32,
         }
     }
 }
@@ -525,7 +553,39 @@ pub fn gen_plan(seed: u64, prop: u64, case: u64, cfg: &GenCfg) -> Plan {
     } else {
         HookProfile { yield_pm: 0, spin_pm: 0, sleep_pm: 0, inject_pm: *g.pick(&[100u32, 300, 600]) }
     };
-    Plan { seed, case, focus: cfg.focus, mode, flavour, cap, senders, flushers, watchers, proc, drop_after_polls, hook }
+    // quiescence rounds (drawn last so that the rest of the plan does not depend on them)
+    let mut tail = Vec::new();
+    if drop_after_polls.is_none() && g.below(1000) < cfg.quiesce_pm as u64 {
+        let rounds = if miri { 1 } else { g.range(1, 3) };
+        for _ in 0..rounds {
+            let op = match g.below(if tokio_ok { 8 } else { 6 }) {
+                0..=1 => SOp::Send,
+                2..=3 => SOp::TrySend,
+                4..=5 => SOp::BlockingSend(timeout_us(&mut g)),
+                6 => SOp::TokioSend(timeout_us(&mut g)),
+                _ => SOp::TokioBlockingSend(timeout_us(&mut g)),
+            };
+            let aim = match mode {
+                Mode::Sequential => match g.below(4) {
+                    0 => TailAim::None,
+                    _ => TailAim::AtLock(g.range(1, 6) as u8),
+                },
+                Mode::Concurrent if cfg.delays => match g.below(10) {
+                    0..=1 => TailAim::None,
+                    2..=3 => TailAim::PreCall(*g.pick(&[W_IDLE, W_TAKEN])),
+                    4..=8 => TailAim::AtLock(W_IDLE),
+                    _ => TailAim::AtLock(W_TAKEN),
+                },
+                Mode::Concurrent => TailAim::None,
+            };
+            let flush = match cfg.focus {
+                Focus::Flush => g.chance(2, 3),
+                Focus::Items => g.chance(1, 5),
+            };
+            tail.push(TailOp { op, aim, flush });
+        }
+    }
+    Plan { seed, case, focus: cfg.focus, mode, flavour, cap, senders, flushers, watchers, proc, drop_after_polls, hook, tail }
 }
 
 impl Plan {
@@ -556,6 +616,7 @@ impl Plan {
             "watchers": self.watchers.iter().map(|w| w.iter().filter(|o| matches!(o, WOp::WhenEmpty)).count()).collect::<Vec<_>>(),
             "processor": self.proc.iter().map(|s| format!("{:?}{}{}", s.out, if s.yields > 0 { format!("+y{}", s.yields) } else { String::new() }, if s.slow_us > 0 { format!("+{}us", s.slow_us) } else { String::new() })).collect::<Vec<_>>(),
             "drop_receiver_after_polls": self.drop_after_polls,
+            "quiescence_rounds": self.tail.iter().map(|t| format!("{:?}", t)).collect::<Vec<_>>(),
             "hook": format!("{:?}", self.hook),
         })
     }
@@ -787,6 +848,8 @@ pub struct ScCtx {
     acks: AtomicU64,
     gate: AtomicU64,
     gate_k: AtomicU64,
+    /// idle waits the receiver has begun (counted at `RecvBeforeIdleWait`)
+    pub idle_steps: AtomicU64,
 }
 
 impl ScCtx {
@@ -802,6 +865,7 @@ impl ScCtx {
             acks: AtomicU64::new(0),
             gate: AtomicU64::new(0),
             gate_k: AtomicU64::new(1),
+            idle_steps: AtomicU64::new(0),
         })
     }
 
@@ -822,11 +886,15 @@ impl ScCtx {
 
     /// Actor side: wait (bounded) for the receiver to reach window `w`.
     fn aim(&self, w: u8) -> bool {
+        self.aim_n(w, 4000)
+    }
+
+    fn aim_n(&self, w: u8, max_iters: u32) -> bool {
         let w = w as usize;
         self.waiting[w].fetch_add(1, SeqCst);
         let g0 = self.open_gen[w].load(SeqCst);
         let mut hit = false;
-        for i in 0..4000u32 {
+        for i in 0..max_iters {
             if self.open_gen[w].load(SeqCst) != g0 {
                 hit = true;
                 break;
@@ -879,6 +947,15 @@ thread_local! {
     static TCTX: RefCell<TState> = const { RefCell::new(TState::Unresolved) };
     static ROLE: Cell<u8> = const { Cell::new(ROLE_MAIN) };
     static SEQ: RefCell<Option<Seq>> = const { RefCell::new(None) };
+    /// concurrent mode: window to wait for inside the hook at this thread's next sender lock point
+    static LOCK_AIM: Cell<u8> = const { Cell::new(u8::MAX) };
+    /// sequential mode: receiver polls to run inside the hook at the next sender lock point
+    static LOCK_POLLS: Cell<u8> = const { Cell::new(0) };
+    /// sequential mode: swap points passed by the receiver during such nested polls
+    static NESTED_SWAPS: Cell<u32> = const { Cell::new(0) };
+    /// sequential mode: the receiver future while nobody is polling it
+    static SEQ_FUT: RefCell<Option<ExecFut>> = const { RefCell::new(None) };
+    static SEQ_RECV_DONE: Cell<bool> = const { Cell::new(false) };
 }
 
 static REG: Mutex<Vec<(u32, Arc<ScCtx>)>> = Mutex::new(Vec::new());
@@ -927,6 +1004,7 @@ fn hook(p: Point) {
     let mut role = ROLE.try_with(|r| r.get()).unwrap_or(ROLE_MAIN);
     let mut act = Act::None;
     let mut rendezvous: Option<(Arc<ScCtx>, u8, bool)> = None;
+    let mut lock_aim: Option<(Arc<ScCtx>, u8)> = None;
     let _ = TCTX.try_with(|c| {
         let mut c = match c.try_borrow_mut() {
             Ok(c) => c,
@@ -938,6 +1016,15 @@ fn hook(p: Point) {
         }
         if let TState::In(t) = &mut *c {
             t.log.lock().unwrap().push((stamp(), role, p));
+            if role == ROLE_RECV && p == Point::RecvBeforeIdleWait {
+                t.sc.idle_steps.fetch_add(1, SeqCst);
+            }
+            if matches!(p, Point::SendLock | Point::TrySendLock) {
+                let w = LOCK_AIM.with(|l| l.replace(u8::MAX));
+                if w != u8::MAX && t.sc.delays {
+                    lock_aim = Some((t.sc.clone(), w));
+                }
+            }
             if t.sc.delays {
                 let pr = t.sc.profile;
                 let k = t.rng.below(1000) as u32;
@@ -987,15 +1074,58 @@ fn hook(p: Point) {
             }
         }
     }
+    if let Some((sc, w)) = lock_aim {
+        // this sender sits right before its lock acquisition until the receiver has passed `w`
+        sc.aim_n(w, 30_000);
+    }
     if role == ROLE_RECV && window_of(p).is_some() {
         // sequential mode: inject scripted actor operations at this receiver point
-        let _ = SEQ.try_with(|s| {
-            if let Ok(mut s) = s.try_borrow_mut() {
-                if let Some(seq) = s.as_mut() {
-                    seq.at_recv_point(p);
+        let nested = SEQ
+            .try_with(|s| match s.try_borrow_mut() {
+                Ok(mut s) => {
+                    if let Some(seq) = s.as_mut() {
+                        seq.at_recv_point(p);
+                    }
+                    false
                 }
-            }
-        });
+                // the driver is busy with an actor operation: this is a nested receiver poll
+                Err(_) => true,
+            })
+            .unwrap_or(false);
+        if nested && p == Point::RecvSwapLock {
+            let _ = NESTED_SWAPS.try_with(|n| n.set(n.get() + 1));
+        }
+    } else if matches!(p, Point::SendLock | Point::TrySendLock) {
+        // sequential mode: let the receiver run while this sender sits before its lock
+        let n = LOCK_POLLS.try_with(|l| l.replace(0)).unwrap_or(0);
+        if n > 0 {
+            nested_polls(n as u32);
+        }
+    }
+}
+
+/// Sequential mode: poll the receiver from inside an actor operation (at its lock point).
+fn nested_polls(n: u32) {
+    let fut = SEQ_FUT.try_with(|f| f.try_borrow_mut().ok().and_then(|mut f| f.take())).ok().flatten();
+    let mut fut = match fut {
+        Some(f) => f,
+        None => return,
+    };
+    let waker: Waker = Arc::new(NoopWake).into();
+    let mut cx = Context::from_waker(&waker);
+    let prev = ROLE.with(|r| r.replace(ROLE_RECV));
+    let mut done = false;
+    for _ in 0..n {
+        if fut.as_mut().poll(&mut cx).is_ready() {
+            done = true;
+            break;
+        }
+    }
+    ROLE.with(|r| r.set(prev));
+    if done {
+        SEQ_RECV_DONE.with(|d| d.set(true));
+    } else {
+        SEQ_FUT.with(|f| *f.borrow_mut() = Some(fut));
     }
 }
 
@@ -2052,6 +2182,7 @@ pub fn calibrate_retry_budget() -> Option<u32> {
             proc: (0..64).map(|_| Step { yields: 0, slow_us: 0, out: Outcome::Retry(Rem::All) }).collect(),
             drop_after_polls: None,
             hook: HookProfile::default(),
+            tail: Vec::new(),
         };
         let h = run_sequential(&plan);
         // attempts of the longest chain
